@@ -45,7 +45,13 @@ def one_sequence(args):
         sl, sf = open_idle(dl), open_idle(df)
         # L: leader path, one entry at a time (append + apply, awaiting the response)
         leader_resps = []
+        changed_by_encoding = None
         for i, r in enumerate(reqs):
+            if changed_by_encoding is None:
+                pr = sl.call("serde_probe", req=r)
+                res["encoding_probes"] = res.get("encoding_probes", 0) + 1
+                if pr.get("ok") and pr.get("same") is False:
+                    changed_by_encoding = {"request_kind": req_kind(r), "index": i + 1, "in_memory": pr.get("in_memory"), "after_encoding": pr.get("after_encoding")}
             a = sl.call("leader_apply", index=i + 1, term=1, req=r)
             if not a.get("ok"):
                 res["inconclusive"] = "leader_apply failed: %s" % json.dumps(a)[:300]
@@ -147,6 +153,10 @@ def one_sequence(args):
                     si.kill()
                     shutil.rmtree(di, ignore_errors=True)
         out = []
+        if changed_by_encoding:
+            out.append({"signature": "leader-applies-a-request-its-log-encoding-does-not-carry/%s" % changed_by_encoding["request_kind"].split(".")[0],
+                        "witness": dict(changed_by_encoding, history_seed=seed, n=len(reqs),
+                                        note="the leader path applies the in-memory request; replicate_to_* on followers and the start-up replay apply its serde_json form")})
         for pair, diffs in viols:
             meta = [x for x in diffs if x[0].startswith("/naming/") and "/metadata" in x[0]]
             rest = [x for x in diffs if x not in meta]
